@@ -86,7 +86,7 @@ struct Coder : Profile {
     std::vector<std::string> required_probes() const override
     {
         return {"rle", "skphuff", "deflate", "none", "backward-seek", "rewrite", "multi-call-write", "nbit", "nbit-signext", "bits", "bitseek",
-                "restart", "empty-read-at-end", "writer-readback", "append-later", "bitmix", "bit-read-in-write-mode", "hnbit", "hnbit-partitioned-read", "hnbit-seek", "partial-refused", "seek-relative"};
+                "restart", "empty-read-at-end", "writer-readback", "append-later", "bitmix", "bit-read-in-write-mode", "hnbit", "hnbit-partitioned-read", "hnbit-seek", "partial-refused", "seek-relative", "compress-existing-element"};
     }
 
     Plan generate(Rng &rng, bool thorough, uint64_t) override
@@ -118,6 +118,17 @@ struct Coder : Profile {
             switch (k) {
                 case 0:
                     e = pick(ex, NEL, false);
+                    if (r.chance(0.25)) {
+                        // compress an element that holds plain data already: length, data class, seed, and what the
+                        // returned access id is used for first (0 read it, 1 rewrite it in full, 2 nothing)
+                        p.ops.push_back(mkop(0, names[k], {e, (int64_t)r.below(4), r.chance(0.7) ? r.range(1, 9) : r.range(10, 16), 1 + r.sizeish(maxlen),
+                                                           (int64_t)r.below(5), (int64_t)(r.next() >> 16), (int64_t)r.below(3)}));
+                        if (!ex[e]) {
+                            ex[e] = dat[e] = true;
+                            wr[e] = p.ops.back().arg(6) == 1;
+                        }
+                        break;
+                    }
                     p.ops.push_back(mkop(0, names[k], {e, (int64_t)r.below(4), r.chance(0.7) ? r.range(1, 9) : r.range(10, 16)}));
                     if (!ex[e])
                         ex[e] = wr[e] = true;
@@ -417,12 +428,46 @@ struct Coder : Profile {
                         ct               = COMP_CODE_DEFLATE;
                         ci.deflate.level = m.param % 10;
                     }
+                    std::vector<uint8_t> plain;
+                    if (o.arg(3) > 0) {
+                        // the element holds plain data already: HCcreate compresses what is there
+                        plain = gen_data((int)o.arg(4), o.arg(3), (uint64_t)o.arg(5));
+                        if (Hputelement(s.fid, 8900, (uint16)(1 + e), plain.data(), (int32)plain.size()) == FAIL)
+                            ctx.fail("create-refused", "create-refused:plain", strf("Hputelement of the plain element failed: %s", herr().c_str()));
+                    }
                     int32 aid = HCcreate(s.fid, 8900, (uint16)(1 + e), COMP_MODEL_STDIO, &mi, ct, &ci);
                     if (aid == FAIL)
                         ctx.fail("create-refused", strf("create-refused:%s", cname(m.coder)), strf("HCcreate(%s, param %d) failed: %s", cname(m.coder), m.param, herr().c_str()));
                     m.exists = true;
                     m.waid   = aid;
                     ctx.probe(cname(m.coder));
+                    if (!plain.empty()) {
+                        ctx.probe("compress-existing-element");
+                        m.data = plain;
+                        int first = modn(o.arg(6), 3);
+                        if (first == 0) {
+                            // the access id stands at the start of the element: reading gives the bytes that were there
+                            std::vector<uint8_t> got(plain.size() + 8, 0x5A);
+                            int32                n = Hread(aid, (int32)plain.size(), got.data());
+                            if (n != (int32)plain.size() || memcmp(got.data(), plain.data(), plain.size()) != 0)
+                                ctx.fail("read-mismatch", strf("read-mismatch:after-compressing:%s", cname(m.coder)),
+                                         strf("Hread(%zu) through the id HCcreate returned for an element that held data returned %d%s", plain.size(), (int)n,
+                                              n == (int32)plain.size() ? " and other bytes" : ""));
+                            m.resumed = true;
+                        }
+                        else if (first == 1) {
+                            // ... and writing from there replaces it (first call covers the old length)
+                            std::vector<uint8_t> d = gen_data((int)o.arg(4) + 1, (int64_t)plain.size() + o.arg(5) % 40, (uint64_t)o.arg(5) + 1);
+                            if (Hwrite(aid, (int32)d.size(), d.data()) != (int32)d.size())
+                                ctx.fail("write-refused", strf("write-refused:after-compressing:%s", cname(m.coder)),
+                                         strf("a full rewrite through the id HCcreate returned for an element that held data failed: %s", herr().c_str()));
+                            m.data = d;
+                        }
+                        // only a writer that has just rewritten the whole stream stands at its end and may go on appending;
+                        // the others are released (a write at the start of a stream has to cover it: crewrite does that)
+                        if (first != 1)
+                            end_writer(s, e);
+                    }
                 }
             }
             else if (k == "cwrite") {
